@@ -299,7 +299,7 @@ def oos_of(L):
     return ("One", L[0]) if len(L) == 1 else ("Set", list(L))
 
 
-def run_cases(F, rule, fn, label, cases, key_kind="model"):
+def run_cases(F, rule, fn, label, cases, key_kind="model", size_hint_of=None):
     """cases: iterable of (description, args factory, worlds iterable, model(world) -> expected normal form | None (=skip),
     observe(path, args) -> normal form, path filter(path) -> bool)."""
     h = F.hir(fn)
@@ -309,6 +309,8 @@ def run_cases(F, rule, fn, label, cases, key_kind="model"):
     ok_all = True
     for desc, mk, ws, want_of, observe, keep in cases:
         ev = SY.Evaluator(F, opaque=KEY, inline_depth=8, concrete_vec=True)
+        if size_hint_of is not None:
+            ev.size_hint_of = size_hint_of
 
         def fin(p, a, observe=observe):
             p.obs = observe(p, a)
@@ -413,8 +415,13 @@ def check_oneorset(F, rule, N=3):
         key_kind="normalisation")
     cands = F.find(r"^<identity_core::common::one_or_many::OneOrMany as core::iter::traits::collect::FromIterator(<.*>)?>::from_iter$")
     fn = cands[0] if cands else "<OneOrMany as FromIterator>::from_iter"
-    decided += run_cases(F, rule, fn, "OneOrMany::from_iter", [
-        ("[%s]" % ", ".join(L), (lambda L=L: [[E(x) for x in L]]), [World([[x] for x in L])],
-         (lambda w, L=L: ("One", L[0]) if len(L) == 1 else ("Many", list(L))), (lambda p, a, L=L: oos_norm(p.ret, set(L))), None) for L in sizes],
-        key_kind="normalisation")
+    # … for every *valid* size hint the source iterator may give (exact; no upper bound; lower 0; upper too large; both loose): what is
+    # collected must not depend on it (a `filter`ed or `chain`ed source hints (1, Some(2)) and yields one element)
+    HINTS = [("exact", None), ("(0, None)", lambda n: (0, None)), ("(len, None)", lambda n: (n, None)), ("(0, len+1)", lambda n: (0, n + 1)),
+             ("(len, len+1)", lambda n: (n, n + 1)), ("(len-1, len+2)", lambda n: (max(n - 1, 0), n + 2)), ("(0, len)", lambda n: (0, n))]
+    for hname, hf in HINTS:
+        decided += run_cases(F, rule, fn, "OneOrMany::from_iter [size_hint %s]" % hname, [
+            ("[%s]" % ", ".join(L), (lambda L=L: [[E(x) for x in L]]), [World([[x] for x in L])],
+             (lambda w, L=L: ("One", L[0]) if len(L) == 1 else ("Many", list(L))), (lambda p, a, L=L: oos_norm(p.ret, set(L))), None) for L in sizes],
+            key_kind="normalisation", size_hint_of=hf)
     return decided
